@@ -235,7 +235,8 @@ theorem tokenizeGo_valid : ∀ (n : Nat) (t : Tokenizer) (acc ts : List Tok) (r 
             · exact hacc x hx)
 
 theorem loopInv_new (d : Bytes) (hv : V d) : LoopInv (Tokenizer.new d.toArray) := by
-  refine ⟨⟨Nat.le_refl _, ⟨Nat.zero_le _, rfl, rfl, rfl⟩, TagOk_nil⟩, fun h => by cases h, ?_, ?_⟩
+  refine ⟨⟨Nat.le_refl _, ⟨Nat.zero_le _, rfl, rfl, rfl⟩, TagOk_nil⟩, ?_, ?_, ?_⟩
+  · intro h; cases h
   · simpa [Tokenizer.new] using hv
   · unfold Vp; simp only [Tokenizer.new, List.take_zero]; exact V_nil
 
@@ -251,5 +252,82 @@ theorem htmlTokenize_tokValid : TokValid htmlTokenize := by
     simp only [h, Option.getD_some] at ht
     unfold htmlTokenize? at h
     exact tokenizeGo_valid _ _ [] ts rest (loopInv_new d hv) h (by simp) t ht
+
+/-! ### tag tokens are `<`…`>` spans -/
+
+theorem rawL_isSpan (t : Tokenizer) (inv : Tokenizer.Inv t) (f : TagFacts t) (hlt : t.rawS < t.rawE) :
+    IsSpan (rawL t) := by
+  unfold rawL IsSpan
+  rw [extract_toList_eq]
+  constructor
+  · rw [List.head?_drop, List.getElem?_take, if_pos hlt, Array.getElem?_toList]
+    exact f.first
+  · rw [List.getLast?_drop]
+    have hlen : (t.buf.toList.take t.rawE).length = t.rawE := by
+      simp; exact Nat.min_eq_left inv.ok.le
+    rw [hlen, if_neg (by omega), List.getLast?_take, if_neg (by omega), Array.getElem?_toList, f.last.2]
+    rfl
+
+theorem isTagKind_kindOf (k : TokenType) (h : isTagKind (kindOf k) = true) : isTagLike k = true := by
+  cases k <;> simp [kindOf, isTagKind, isTagLike] at h ⊢
+
+theorem next_isSpan (t : Tokenizer) (inv : Tokenizer.Inv t) (hk : isTagKind (kindOf (Tokenizer.next t).token) = true) :
+    IsSpan (rawL (Tokenizer.next t)) := by
+  have hl := isTagKind_kindOf _ hk
+  have hne : (Tokenizer.next t).token ≠ .error := by
+    intro he; rw [he] at hl; simp [isTagLike] at hl
+  exact rawL_isSpan _ (next_inv' t inv) (next_tag t inv hl) ((next_post t inv).progress hne)
+
+theorem tokenizeGo_tagSpan : ∀ (n : Nat) (t : Tokenizer) (acc ts : List Tok) (r : Bytes), Tokenizer.Inv t →
+    tokenizeGo n t acc = some (ts, r) → (∀ x ∈ acc, isTagKind x.kind = true → IsSpan x.raw) →
+    ∀ x ∈ ts, isTagKind x.kind = true → IsSpan x.raw
+  | 0, _, _, _, _, _, h, _ => by simp [tokenizeGo] at h
+  | n + 1, t, acc, ts, r, hi, h, hacc => by
+    have hi1 := next_inv' t hi
+    have hsp := next_isSpan t hi
+    rw [tokenizeGo] at h
+    split at h
+    · simp at h
+    · split at h
+      · rw [raw_eq _ hi1, buffered_eq _ hi1] at h
+        simp only at h
+        injection h with h
+        injection h with h1 h2
+        subst h1
+        intro x hx
+        exact hacc x (by simpa using hx)
+      · rw [raw_eq _ hi1] at h
+        simp only at h
+        have step : ∀ (tk : Tok), tk.kind = kindOf (Tokenizer.next t).token → tk.raw = rawL (Tokenizer.next t) →
+            ∀ x ∈ tk :: acc, isTagKind x.kind = true → IsSpan x.raw := by
+          intro tk h1 h2 x hx hk
+          simp only [List.mem_cons] at hx
+          rcases hx with rfl | hx
+          · rw [h2]; exact hsp (by rw [← h1]; exact hk)
+          · exact hacc x hx hk
+        split at h
+        · split at h
+          · rename_i nm b t2 htn
+            have hfr := tagName_frame (Tokenizer.next t) (some nm, b) (by rw [htn]) hi1
+            rw [htn] at hfr
+            exact tokenizeGo_tagSpan n t2 _ ts r hfr.1 h (step _ rfl rfl)
+          · rename_i b t2 htn
+            have hfr := tagName_frame (Tokenizer.next t) (none, b) (by rw [htn]) hi1
+            rw [htn] at hfr
+            exact tokenizeGo_tagSpan n t2 _ ts r hfr.1 h (step _ rfl rfl)
+          · simp at h
+        · exact tokenizeGo_tagSpan n _ _ ts r hi1 h (step _ rfl rfl)
+
+/-- **tag tokens are `<`…`>` spans** -/
+theorem htmlTokenize_tagSpan : TagSpan htmlTokenize := by
+  intro d t ht hk
+  unfold htmlTokenize at ht
+  cases h : htmlTokenize? d with
+  | none => simp [h] at ht
+  | some r =>
+    obtain ⟨ts, rest⟩ := r
+    simp only [h, Option.getD_some] at ht
+    unfold htmlTokenize? at h
+    exact tokenizeGo_tagSpan _ _ [] ts rest ⟨Nat.le_refl _, ⟨Nat.zero_le _, rfl, rfl, rfl⟩, TagOk_nil⟩ h (by simp) t ht hk
 
 end Rio.Filter
